@@ -177,6 +177,9 @@ package didsubject
 // 'committed' must not overwrite an earlier 'not committed')
 //@   loop @IsCommitted invariant committed == true
 //@   call (MethodManager).IsCommitted #1 requires [asked-of-the-changes-own-method] arg(0) == r.MethodManagers[change.Method()] && same(arg(2), change)
+// ... which must be one of the enabled methods: a change record of a method that is no longer enabled is left alone (the
+// map lookup of a missing method yields a nil manager; calling it crashed the rollback goroutine at every start)
+//@   call (MethodManager).IsCommitted #1 requires [the-method-is-enabled] ok && !isNilIface(arg(0))
 //@   call deleteDocumentVersion #1 requires [versions-deleted-only-for-an-uncommitted-set] committed == false && arg(0) == tx && same(arg(1), change)
 //@   call (*gorm.DB).Delete #1 requires [records-deleted-after-the-set-was-judged] typeOf(arg(1)) == *orm.DIDChangeLog && arg(0) == ret(call (*gorm.DB).Where #3) && arg(call (*gorm.DB).Where #3, 0) == tx
 //@        && arg(call (*gorm.DB).Where #3, 1) == any("transaction_id = ?") && len(arg(call (*gorm.DB).Where #3, 2)) == 1 && arg(call (*gorm.DB).Where #3, 2)[0] == any(transactionID)
